@@ -174,7 +174,7 @@ def items_for(tier):
     for is2d in (False, True):
         for bpv in bpv_values(tier):
             it = Item('blockshape|%s|bpv=%r' % ('2d' if is2d else '3d', bpv), (lambda bpv=bpv, is2d=is2d: item_fn(bpv, is2d)),
-                      timeout_s=250 if tier == 'quick' else 1500, solver_ms=10000)
+                      timeout_s=250 if tier == 'quick' else 600, solver_ms=10000)
             it.meta = dict(bpv=bpv, is2d=is2d)
             items.append(it)
     return items
